@@ -143,6 +143,38 @@ def generate():
         raise ShapeError("not-cached branch not recognised: %r" % body)
     flag("ufm_uncached_purges", uncached_purges)
 
+    def run_task():
+        m = astlib.module("klongpy/db/file_cache.py")
+        cls = astlib.find_class(m, "FileCache")
+        subs = []
+        for fname in ("get_file", "update_file"):
+            for c in astlib.calls_in(astlib.find_func(cls, fname), "submit"):
+                subs.append((fname, [ast.unparse(a) for a in c.args[:2]]))
+        direct = [x for x in subs if x[1][0] in ("self._load_file", "self._write_file")]
+        wrapped = [x for x in subs if x[1][0] == "self._run_task"]
+        if len(subs) != 2:
+            raise ShapeError("expected one submit in get_file and one in update_file: %r" % subs)
+        if len(direct) == 2:
+            return False
+        if len(wrapped) != 2 or sorted(x[1][1] for x in wrapped) != ["self._load_file", "self._write_file"]:
+            raise ShapeError("submits not recognised: %r" % subs)
+        rt = astlib.find_func(cls, "_run_task")
+        body = astlib.body_no_doc(rt)
+        if len(body) != 1 or not isinstance(body[0], ast.Try) or len(body[0].handlers) != 1:
+            raise ShapeError("_run_task: one try/except expected")
+        tr = body[0]
+        if [ast.unparse(x) for x in tr.body] != ["return task(file_name, *args)"]:
+            raise ShapeError("_run_task: try body not recognised")
+        h = tr.handlers[0]
+        if ast.unparse(h.type) not in ("BaseException", "Exception"):
+            raise ShapeError("_run_task: handler type")
+        hb = [ast.unparse(x) for x in h.body]
+        want = ["with self.file_futures_lock:\n    self.file_futures.pop(file_name, None)\n    self.file_access_times = [(t, fn) for t, fn in self.file_access_times if fn != file_name]\n    heapq.heapify(self.file_access_times)", "raise"]
+        if hb != want:
+            raise ShapeError("_run_task: error path not recognised: %r" % hb)
+        return True
+    flag("task_failure_forgets", run_task)
+
     def write_targets_only():
         m = astlib.module("klongpy/db/file_cache.py")
         fn = astlib.find_func(astlib.find_class(m, "FileCache"), "_write_file")
@@ -669,8 +701,6 @@ def oracle_kvs(seq, recs, runner):
     tainted = set()          # keys whose load failed in the current store object (known finding C16-failed-load-entry)
     seq["k5"] = False
     for i, (o, r) in enumerate(zip(seq["ops"], recs)):
-        if o.get("key") in tainted:
-            seq["k5"] = True
         if o["op"] == "reopen":
             tainted = set()
         if o["op"] == "getfault":
@@ -1313,19 +1343,14 @@ def run(tier, replay=None):
                 bad_props.append(rep3)
             if [x[0][0] for x in m3] != ["set", "val", "set"]:
                 bad_corrs.append(dict(rep3, kind="mem-over-limit witness", model=str(m3)[:300]))
-            # known finding: the entry of a failed load stays (same key: remembered error, wrong accounting)
+            # regression of the repaired finding C16-failed-load-entry (ada72ef): a failed load leaves no entry behind
             seq5 = {"max": 0, "limit_kind": "default", "conflict": False, "ops": [
                 {"op": "set", "key": "a", "val": 4, "t": 1}, {"op": "reopen", "max": 0}, {"op": "getfault", "key": "a", "t": 2},
                 {"op": "get", "key": "a", "t": 3}, {"op": "set", "key": "a", "val": 4, "t": 4}]}
             recs5 = runner.run(seq5)
-            m5 = chk.run_model([model_request(seq5, recs5, catches, dirsize)[0]])[0]
-            model5 = [list(x[0]) for x in m5][2:4] == [["err", 8], ["err", 8]]
-            impl5 = recs5[2]["res"] == ["err", 8] and recs5[3]["res"] == ["err", 8] and not recs5[4]["acct_ok"]
-            if impl5 and model5:
-                chk.finding("C16-failed-load-entry", "the entry of a failed load stays", describe_seq(seq5, runner))
-            elif impl5 != model5 and not (recs5[3]["res"][0] == "val" and recs5[4]["acct_ok"]):
-                bad_corrs.append(dict(describe_seq(seq5, runner), what="failed-load witness: model and implementation disagree",
-                                      impl=[r["res"] for r in recs5], model=str(m5)[:300]))
+            if not (recs5[2]["res"] == ["err", 8] and recs5[3]["res"] == ["val"] and all(r["acct_ok"] for r in recs5)):
+                bad_props.append(dict(describe_seq(seq5, runner), what="after a failed load of key a: results %r, accounting ok %r"
+                                      % ([r["res"] for r in recs5], [r["acct_ok"] for r in recs5])))
             bp, bk, bc = check_kvs(chk, rng, runner, catches, dirsize)
         finally:
             runner.close()
